@@ -575,3 +575,73 @@ def radau_replay(backward, failed):
                             return True, f"probe script RADAU {x0!r} {xend!r} {h0!r} {ms!r} 100000 {pat} {fl} 3 1   (real RADAU, scripted right-hand side / callback; /verif/replay/src/main.rs)", "\n".join(log)
     log.append(f"{n} native RADAU runs: no native violation of kind {sorted(want) if want else 'any'}")
     return None, "native RADAU battery (rsym/replay.py radau_replay)", "\n".join(log)
+
+
+def radau_stiff_replay(failed):
+    """Native: the real RADAU on the stiff Van der Pol oscillator (mu = 1000, analytic Jacobian) at loose tolerances, where the
+    Newton iteration runs into its failure branches: per accepted step the interpolant must span [xold, x] and reproduce y(x);
+    nfev/njev must equal the calls made."""
+    log = []
+    kinds = _bdf_kinds(failed) if failed else {"times", "protocol", "counters"}
+    for rt in ("1e-2", "1e-3"):
+        try:
+            d = probe(["stiffdense", "RADAU", rt, "3000"], timeout=120)
+        except Exception as e:
+            log.append(f"probe failed: {str(e)[:150]}")
+            continue
+        if d["bad"] and (kinds & {"protocol", "times", "status", "maxstep"}):
+            b = d["bad"][0]
+            log.append(f"rtol={rt}: accepted step {b['step']} from {b['xold']} to {b['x']}: interpolant spans [{b['lo']}, {b['hi']}], interpolant at x = {b['interp_at_x']} but y = {b['y']} ({len(d['bad'])}+ such steps of {d['steps']})")
+            return True, f"probe stiffdense RADAU {rt} 3000   (real RADAU, Van der Pol mu=1000, y0=(2,0), [0,3000])", "\n".join(log)
+        if "nfev" in d and (d["nfev"] != d["ode_calls"] or d["njev"] != d["jac_calls"]) and "counters" in kinds:
+            log.append(f"rtol={rt}: nfev={d['nfev']} njev={d['njev']} but {d['ode_calls']} right-hand-side and {d['jac_calls']} Jacobian calls were made")
+            return True, f"probe stiffdense RADAU {rt} 3000", "\n".join(log)
+        log.append(f"rtol={rt}: {d['steps']} steps, no inconsistent interpolant, counters consistent")
+    return None, "probe stiffdense RADAU", "\n".join(log)
+
+
+def bdf_span_replay(backward):
+    """Native: real BDF runs ending at 0, at ordinary and at awkward end points: every callback's x must be bit-for-bit the
+    end of its interpolant's span (x_start + h)."""
+    import struct
+    n = 0
+    ends = [0.0, 1.0, 3.75, 1e-9]
+    for xe in ends:
+        for k in range(60):
+            a = xe + (1.0 + 0.051 * k) * (1.0 if backward else -1.0)
+            x0, xend = a, xe
+            try:
+                d = probe(["bdf", repr(x0), repr(xend), "none", "none", 100000, "C", 4, "1e-3", 0], timeout=20)
+            except Exception:
+                continue
+            n += 1
+            cbs = d.get("callbacks", [])
+            for k2, bd in enumerate(d.get("bounds", [])):
+                if k2 + 1 < len(cbs):
+                    x = float(cbs[k2 + 1][1])
+                    end = float(bd[0]) if backward else float(bd[1])     # bounds() is (min, max)
+                    if struct.pack("d", end) != struct.pack("d", x):
+                        return True, f"probe bdf {x0!r} {xend!r} none none 100000 C 4 1e-3 0   (real BDF, y' = cos t + y/2)", f"callback {k2 + 1}: reported x = {x!r} but its interpolant's span ends at {end!r}\nafter {n} native runs"
+    return None, "native BDF span battery", f"{n} native BDF runs: every reported x is the end of its interpolant's span"
+
+
+def modinit_replay(method="RADAU"):
+    """Native: the initial callback writes a new state and returns ModifiedSolution; the rest of the run must be bit-for-bit
+    the run started from the written state (callback times and states), with one more evaluation."""
+    log = []
+    for h0, rtol in (("1e-3", "1e-6"), ("1e-2", "1e-4"), ("0.05", "1e-5"), ("1e-4", "1e-8")):
+        try:
+            d = probe(["modinit", method, h0, rtol], timeout=60)
+        except Exception as e:
+            log.append(f"probe failed: {str(e)[:150]}")
+            continue
+        a, b = d["runs"]
+        if a["x"] != b["x"] or a["y"] != b["y"]:
+            k = next((i for i, (p, q) in enumerate(zip(a["x"], b["x"])) if p != q), min(len(a["x"]), len(b["x"])))
+            log.append(f"first_step={h0} rtol={rtol}: after the initial callback wrote 0.25 the run differs from the run started at 0.25 from callback {k} on: x = {a['x'][k:k + 2]} vs {b['x'][k:k + 2]}")
+            return True, f"probe modinit {method} {h0} {rtol}   (real {method}, y' = cos t + y/2 on [0, 0.5])", "\n".join(log)
+        if a["ode_calls"] != b["ode_calls"] + 1:
+            log.append(f"first_step={h0} rtol={rtol}: {a['ode_calls']} evaluations vs {b['ode_calls']} (expected exactly one more)")
+            return True, f"probe modinit {method} {h0} {rtol}", "\n".join(log)
+        log.append(f"first_step={h0} rtol={rtol}: identical ({len(a['x'])} callbacks)")
+    return None, f"probe modinit {method}", "\n".join(log)
